@@ -319,10 +319,10 @@ class Unit:
                 self.check_ghost(f, c['ghost_exit'])
                 body = body + '\n' + c['ghost_exit'] + '\n'
             protos.append(f.proto + ctext + ';')
-            f.text = '/* %s  %s:%d-%d */\n%s%s\n{%s}\n' % (f.qual, f.relpath, f.ft.line0, f.ft.line1, f.proto, ctext, body)
+            f.text = '/* %s  %s:%d-%d */\n%s\n{%s}\n' % (f.qual, f.relpath, f.ft.line0, f.ft.line1, f.proto, body)
             defs.append(f.text)
+        out.append('\n/* ---- spec (units/%s) ---- */\n' % self.name + extra_c)
         out.append('\n/* ---- prototypes ---- */\n' + '\n'.join(protos) + '\n')
-        out.append(extra_c)
         out.append('\n/* ---- extracted functions ---- */\n' + '\n'.join(defs))
         return '\n'.join(out)
 
